@@ -102,8 +102,9 @@ theorem union_row_bl {pc : B → R B} {p fs types offs cur} {i : Nat} {S : List 
   cases hget : fs.get? i with
   | none =>
     have hp := hnone (hkids.get_none hget)
-    simp only [serializeVariant, hget]
-    exact Blo.of_noctx_mem _ hp
+    refine Blo.bind ⟨NoCtx.bl _, fun _ _ => hp⟩ fun r hr => ?_
+    obtain ⟨m1, co, hget1, _⟩ := serializeVariant_ok hr
+    rw [hget] at hget1; cases hget1
   | some cm =>
     obtain ⟨c, m⟩ := cm
     obtain ⟨tid, nm, cdt, cn, cmd, hufs, hgc, hac⟩ := hkids.get hget
